@@ -33,7 +33,7 @@ def run (entries : List Entry) (tl rq ch cls : String) : String :=
   let tlabels := if tl = "-" then [] else tl.splitOn ","
   match (rq.splitOn ";").mapM parseReq, parseChoices ch, natList cls with
   | some reqs, some choices, some clsIds =>
-    match buildTick OPM.Gen.LockTable.tickCalls tlabels, buildReqs entries 0 reqs with
+    match buildTick OPM.Gen.LockTable.tickCalls OPM.Gen.LockTable.nested tlabels, buildReqs entries 0 reqs with
     | some progT, some body =>
       let progR : List Seg := { label := "<start>" } :: body
       match simulate progT progR choices with
